@@ -166,3 +166,41 @@ PROPS["C04"] = dict(
     assumptions=["schema facts supplied per case by the real openapi package", "reference = k8s.io/apimachinery v0.29.0 strategicpatch with k8s.io/api types"],
     design_ref="DESIGN.md §5 C04",
 )
+
+PROPS["C06"] = dict(
+    title="Generators layer like dictionaries and name their output by its final content",
+    modules=["Kust.Props.C06"],
+    theorems=["Kust.C06.over_get", "Kust.C06.over_assoc", "Kust.C06.create_on_absent", "Kust.C06.merge_on_absent_fails",
+              "Kust.C06.replace_on_absent_fails", "Kust.C06.create_on_present_fails", "Kust.C06.merge_on_present", "Kust.C06.replace_on_present",
+              "Kust.C06.layer_fold", "Kust.C06.suffix_ignores_envelope", "Kust.C06.equal_content_equal_suffix",
+              "Kust.C06.subst_injective_on_hex", "Kust.C06.subst_expected", "Kust.C06.suffix_length"],
+    components=["gen.hash", "gen.literals", "gen.absorb"],
+    oracle=True,
+    n_corr={"quick": 2000, "thorough": 30000}, n_oracle={"quick": 500, "thorough": 6000},
+    technique="Lean 4 proof (dictionary algebra of create/merge/replace over any chain; suffix depends on content only; regenerated digit substitution injective on hex) + Go/Lean correspondence of literal parsing, AbsorbAll and hasher.Hash (Lean SHA-256 + JSON escaping in the driver) + independent-hash oracle on whole builds",
+    level_text="Theorems: merge is right-biased dictionary override for every key, layering folds associatively, impossible behaviours are errors, for any chain of "
+               "merge/replace layers the final data is the fold; the suffix is a function of (kind, data, type) for ANY digest function, ten characters long, "
+               "with an injective substitution (decide over the regenerated table). Collision resistance of SHA-256 is not claimed. Whole-build naming "
+               "(affixes + suffix, references following it) is decided by the oracle with an independently written hash.",
+    level_note=COMMON_NOTE + "SHA-256 and Go JSON escaping are parameters of the theorems; the driver's own implementations are validated against hasher.Hash on every case.",
+    assumptions=["binaryData / stringData / file and env sources are covered by the oracle only", "the name slot of the hash input is always empty (observed and modelled)"],
+    design_ref="DESIGN.md §5 C06",
+)
+
+PROPS["C08"] = dict(
+    title="Labels reach metadata, selectors and templates consistently",
+    modules=["Kust.Props.C08", "Kust.Labels"],
+    theorems=["Kust.C08.no_selectors_without_flag", "Kust.C08.tables_pair_up", "Kust.C08.metadata_labels_everywhere",
+              "Kust.C08.selecting_kinds_present", "Kust.C08.selection_preserved", "Kust.C08.selection_preserved_layers",
+              "Kust.C08.labels_present", "Kust.C08.labels_frame"],
+    components=["labels.build"],
+    oracle=True,
+    n_corr={"quick": 2500, "thorough": 30000}, n_oracle={"quick": 400, "thorough": 5000},
+    technique="Lean 4 proof (decide +kernel over the regenerated label field-spec tables; selection preserved under equal label directives for any number of layers) + Go/Lean correspondence of label application through real builds for 11 kinds + who-selects-whom oracle",
+    level_text="Theorems: in the regenerated tables every workload kind's selector location is paired with its pod-template location (created if absent); a labels entry "
+               "without includeSelectors has no selector path; adding one label set to a selector and to the labels it selected preserves selection, for any chain "
+               "of layers; added labels are present, others untouched. The model of 'which locations a labels entry reaches' is tied to real builds for every kind.",
+    level_note=COMMON_NOTE + "fieldspec traversal below the label locations and custom field specs are oracle-only.",
+    assumptions=["default transformer configuration (no custom `configurations:`)"],
+    design_ref="DESIGN.md §5 C08",
+)
